@@ -151,16 +151,19 @@ pub fn check(id: &str, tier: Tier) -> i32 {
         (2, 5, lists.clone(), vec![(true, 256, 8)], vec![3, 11]),
         (3, 3, lists.clone(), vec![(true, 256, 8)], vec![3, 1, 11]),
         (3, 2, lists.clone(), vec![(false, 225, 8), (true, 256, 0)], vec![3, 7, 19]),
+        (4, 2, lists.clone(), vec![(true, 256, 8)], vec![3, 11, 19]),
       ]
     } else {
       vec![
         (2, 3, with_none.clone(), vec![(true, 256, 8)], vec![3, 1, 0, 7, 11]),
         (2, 3, lists.clone(), vec![(false, 225, 8)], vec![3, 11]),
         (3, 2, lists.clone(), vec![(true, 256, 8)], vec![3, 1, 11]),
+        (4, 1, lists.clone(), vec![(true, 256, 8)], vec![3, 11]),
       ]
     };
     for (nt, bound, fls, layouts, shapes) in &passes {
-      let menu = if *nt == 2 { &menu2 } else { &menu3 };
+      let menu4: Vec<P> = if id == "C07" { vec![P::B16, P::B24, P::Dp, P::Disc] } else { vec![P::B16, P::B24, P::U64, P::Dp] };
+      let menu = if *nt == 2 { &menu2 } else if *nt == 3 { &menu3 } else { &menu4 };
       let mut count = 0;
       for fl in fls {
         for (unify, cap, min_seg) in layouts {
